@@ -1,6 +1,6 @@
 (* Properties/C03.v — Encoders and decoders are mutually inverse at every layer.
    Only statements, each closed by [exact] of a lemma proved in Proofs/. *)
-From PV Require Import Base.Prelude Base.Slice Model.EncodeBase Model.Encode Spec.EncodeRef Proofs.Encode.
+From PV Require Import Base.Prelude Base.Slice Model.EncodeBase Model.Encode Spec.EncodeRef Proofs.Encode Proofs.EncodeIP4 Proofs.EncodeEther.
 Open Scope N_scope.
 
 (* EncodeEther: for every buffer of capacity >= 14 (any length, any contents), every
@@ -53,3 +53,123 @@ Example C03_append_too_big_ex :
   exists r, ip4_append (mkSlice (69 :: repeat 0 23) 20) [1;2;3;4] 17 = Ok r /\ len r = 24%nat.
 Proof. exact ip4_append_too_big_ex. Qed.
 Print Assumptions C03_append_too_big_ex.
+
+(* ---------------------------------------------------------------- *)
+(* IPv4.  EncodeIP4 then AppendPayload: for every buffer (length >= 10 for the index writes
+   of EncodeIP4, capacity >= 20 + payload), ttl, protocol, IPv4 addresses and payload below the
+   uint16 range, the packet decodes through IsValid + getters AND through the RFC 791 reference
+   decoder (which also checks the header checksum) to the supplied values; length fields are
+   consistent (TotalLen = 20 + |payload| = len) and nothing beyond the packet is touched. *)
+Theorem C03_ip4_rt : forall p ttl src dst b proto,
+  (10 <= len p)%nat -> (20 + length b <= cap p)%nat ->
+  is4 src = true -> is4 dst = true -> bytes_ok src -> bytes_ok dst -> bytes_ok b ->
+  ttl < 256 -> proto < 256 -> 20 + N.of_nat (length b) < 65536 ->
+  exists ip r,
+    encode_ip4 p ttl src dst = Ok ip /\ len ip = 20%nat /\
+    ip4_append ip b proto = Ok r /\
+    len r = (20 + length b)%nat /\ cap r = cap p /\
+    skipn (20 + length b) (arr r) = skipn (20 + length b) (arr p) /\
+    bytes_ok (view r) /\
+    ip4_decode_lib r = Ok (ip4_expected_view ttl proto src dst b) /\
+    ref_ip4 (view r) = Some (ip4_expected_ref ttl proto src dst b).
+Proof. exact ip4_append_rt. Qed.
+Print Assumptions C03_ip4_rt.
+
+(* EncodeIP4 then SetPayload (which uses only len(b)): the payload is the bytes already in
+   place after the header, as in the library's own composition. *)
+Theorem C03_ip4_set_payload_rt : forall p ttl src dst b proto,
+  (10 <= len p)%nat -> (20 + length b <= cap p)%nat ->
+  is4 src = true -> is4 dst = true -> bytes_ok src -> bytes_ok dst -> bytes_ok b ->
+  ttl < 256 -> proto < 256 -> 20 + N.of_nat (length b) < 65536 ->
+  firstn (length b) (skipn 20 (arr p)) = b ->
+  exists ip r,
+    encode_ip4 p ttl src dst = Ok ip /\ len ip = 20%nat /\
+    ip4_set_payload ip (length b) proto = Ok r /\
+    len r = (20 + length b)%nat /\ cap r = cap p /\
+    skipn 20 (arr r) = skipn 20 (arr p) /\
+    bytes_ok (view r) /\
+    ip4_decode_lib r = Ok (ip4_expected_view ttl proto src dst b) /\
+    ref_ip4 (view r) = Some (ip4_expected_ref ttl proto src dst b).
+Proof. exact ip4_set_payload_rt. Qed.
+Print Assumptions C03_ip4_set_payload_rt.
+
+(* The bound 20 + |b| < 65536 is needed: totalLen is a uint16 (outside the property's domain
+   of EthMaxSize buffers; documented, not a finding). *)
+Theorem C03_ip4_set_payload_wrap_refuted :
+  exists (p : slice) (b : bytes), (20 + length b <= cap p)%nat /\ (10 <= len p)%nat /\
+    (ip <- encode_ip4 p 64 [10;0;0;1] [10;0;0;2] ;;
+     r <- ip4_set_payload ip (length b) 17 ;; Ok (len r))%res = Ok 0%nat.
+Proof. exact ip4_set_payload_wrap_refuted. Qed.
+Print Assumptions C03_ip4_set_payload_wrap_refuted.
+
+(* ---------------------------------------------------------------- *)
+(* UDP *)
+Theorem C03_udp_rt : forall p sp dp b,
+  (8 + length b <= cap p)%nat -> sp < 65536 -> dp < 65536 -> bytes_ok b -> 8 + N.of_nat (length b) < 65536 ->
+  exists u r,
+    encode_udp p sp dp = Ok u /\ len u = 8%nat /\
+    udp_append u b = Ok r /\
+    len r = (8 + length b)%nat /\ cap r = cap p /\
+    skipn (8 + length b) (arr r) = skipn (8 + length b) (arr p) /\
+    bytes_ok (view r) /\
+    udp_decode_lib r = Ok (udp_expected_view sp dp b) /\
+    ref_udp (view r) = Some (udp_expected_ref sp dp b).
+Proof. exact udp_append_rt. Qed.
+Print Assumptions C03_udp_rt.
+
+Theorem C03_udp_set_payload_rt : forall p sp dp b,
+  (8 + length b <= cap p)%nat -> sp < 65536 -> dp < 65536 -> bytes_ok b -> 8 + N.of_nat (length b) < 65536 ->
+  firstn (length b) (skipn 8 (arr p)) = b ->
+  exists u r,
+    encode_udp p sp dp = Ok u /\ len u = 8%nat /\
+    udp_set_payload u (length b) = Ok r /\
+    len r = (8 + length b)%nat /\ cap r = cap p /\
+    skipn 8 (arr r) = skipn 8 (arr p) /\
+    bytes_ok (view r) /\
+    udp_decode_lib r = Ok (udp_expected_view sp dp b) /\
+    ref_udp (view r) = Some (udp_expected_ref sp dp b).
+Proof. exact udp_set_payload_rt. Qed.
+Print Assumptions C03_udp_set_payload_rt.
+
+(* ---------------------------------------------------------------- *)
+(* Ethernet payload.  Domain: EtherType is not a VLAN tag type (HeaderLen = 14: EncodeEther
+   builds an untagged Ethernet II header).  SetPayload uses only len(payload): the payload is
+   the bytes in place after the header.  Documented convention of Ether.Payload(): for an
+   empty payload it returns the spare capacity, hence the premise pl <> [] on that getter. *)
+Theorem C03_ether_set_payload_rt : forall b ht src dst pl,
+  (14 + length pl <= cap b)%nat -> length src = 6%nat -> length dst = 6%nat ->
+  ht < 65536 -> hlen_of_type ht = 14%nat ->
+  firstn (length pl) (skipn 14 (arr b)) = pl ->
+  exists e r,
+    encode_ether b ht src dst = Ok e /\ ether_set_payload e (length pl) = Ok r /\
+    len r = (14 + length pl)%nat /\ cap r = cap b /\ arr r = arr e /\
+    ether_is_valid r = true /\ ether_dst r = Ok dst /\ ether_src r = Ok src /\ ether_type r = Ok ht /\
+    ether_hlen r = Ok 14%nat /\
+    (pl <> [] -> (w <- ether_payload r ;; Ok (view w))%res = Ok pl) /\
+    ref_ether (view r) = Some {| re_dst := dst; re_src := src; re_type := ht; re_payload := pl |}.
+Proof. exact ether_set_payload_rt. Qed.
+Print Assumptions C03_ether_set_payload_rt.
+
+(* AppendPayload pads to the 60-byte minimum frame with zeros (pad46).  The real code slices
+   with cap(payload): the full statement is refuted; it holds outside that class. *)
+Theorem C03_ether_append_refuted :
+  exists b ht src dst (pl : bytes) pcap,
+    (14 + length pl <= cap b)%nat /\ (60 <= cap b)%nat /\ (length pl <= pcap)%nat /\ hlen_of_type ht = 14%nat /\
+    known_C03_ether_append_cap b ht pl pcap = true /\
+    (e <- encode_ether b ht src dst ;; ether_append e pl pcap)%res = Panic.
+Proof. exact ether_append_cap_refuted. Qed.
+Print Assumptions C03_ether_append_refuted.
+
+Theorem C03_ether_append_rt_partial : forall b ht src dst pl pcap,
+  (14 + length pl <= cap b)%nat -> (60 <= cap b)%nat -> length src = 6%nat -> length dst = 6%nat ->
+  ht < 65536 -> hlen_of_type ht = 14%nat -> (length pl <= pcap)%nat ->
+  known_C03_ether_append_cap b ht pl pcap = false ->
+  exists e r,
+    encode_ether b ht src dst = Ok e /\ ether_append e pl pcap = Ok r /\
+    len r = Nat.max 60 (14 + length pl) /\ cap r = cap b /\
+    ether_is_valid r = true /\ ether_dst r = Ok dst /\ ether_src r = Ok src /\ ether_type r = Ok ht /\
+    ether_hlen r = Ok 14%nat /\
+    (w <- ether_payload r ;; Ok (view w))%res = Ok (pad46 pl) /\
+    ref_ether (view r) = Some {| re_dst := dst; re_src := src; re_type := ht; re_payload := pad46 pl |}.
+Proof. exact ether_append_rt_partial. Qed.
+Print Assumptions C03_ether_append_rt_partial.
